@@ -53,6 +53,7 @@ ANNOT_TYPES = {
 COQ_TYPES = {
     "ftensor": "tensor F",
     "i8tensor": "tensor F",
+    "btensor": "tensor bool",
     "u8tensor": "tensor F",
     "qany": "qany F",
     "optopt": "option optkind",
@@ -296,6 +297,9 @@ class FunTranslator:
         if a.ty == "optint" and b.ty == "int" and op in (ast.Eq, ast.NotEq):
             t = f"(oz_eqb {a.coq} {b.coq})"
             return Expr(t if op is ast.Eq else f"(negb {t})", "bool", a.pre + b.pre)
+        tc = self.ctx.vocab.get("tensor_compares", {})
+        if (a.ty, b.ty, op.__name__) in tc:
+            return Expr("(" + tc[(a.ty, b.ty, op.__name__)].format(a=a.coq, b=b.coq) + ")", "btensor", a.pre + b.pre)
         ct = self.ctx.vocab.get("compares", {})
         if (a.ty, b.ty, op.__name__) in ct:
             return Expr("(" + ct[(a.ty, b.ty, op.__name__)].format(a=a.coq, b=b.coq) + ")", "bool", a.pre + b.pre)
